@@ -145,7 +145,7 @@ def _check_valid(axioms, pc, goal, timeout_ms=10000, seed=0, external=True):
         sd.add(z3.Not(goal))
         STATS['dumped'] = STATS.get('dumped', 0) + 1
         with open(os.path.join(os.environ['PYVC_DUMP'], 'fail_%d.smt2' % STATS['dumped']), 'w') as f:
-            f.write('; goal: %s\n' % str(goal).replace('\n', ' ')[:300])
+            f.write('; goal: %s\n' % str(goal).replace('\n', ' ')[:6000])
             f.write(sd.to_smt2())
     st, reason, model, _ = attempts[0]
     if ext_budget and st != 'sat':
